@@ -1042,12 +1042,24 @@ func runCorpus(prop string) map[string]any {
 		}
 		mine = append(mine, d)
 	}
+	// at most 10 per run (canaries first, then the newest rounds): the whole corpus is selftest.sh's job
+	all := len(mine)
+	sort.SliceStable(mine, func(i, j int) bool {
+		ci, cj := strings.HasPrefix(filepath.Base(mine[i]), "canary"), strings.HasPrefix(filepath.Base(mine[j]), "canary")
+		if ci != cj {
+			return ci
+		}
+		return filepath.Base(mine[i]) > filepath.Base(mine[j])
+	})
+	if len(mine) > 10 {
+		mine = mine[:10]
+	}
 	// each seeded change is applied to a scratch worktree of /repo's HEAD and the quick check of the property is
 	// run against it (the build / test-suite / demonstration confirmation is seedcheck.sh's job); 4 at a time
 	self, _ := os.Executable()
 	results := make([]bool, len(mine))
 	var wg sync.WaitGroup
-	sem := make(chan struct{}, 4)
+	sem := make(chan struct{}, 5)
 	for i, d := range mine {
 		wg.Add(1)
 		go func(i int, d string) {
@@ -1086,5 +1098,5 @@ func runCorpus(prop string) map[string]any {
 			missed = append(missed, filepath.Base(d))
 		}
 	}
-	return map[string]any{"seeded_changes": len(mine), "detected": caught, "missed": missed, "how": "patch applied to a scratch worktree of HEAD, quick check of the property run against it"}
+	return map[string]any{"seeded_changes": len(mine), "of_corpus": all, "detected": caught, "missed": missed, "how": "patch applied to a scratch worktree of HEAD, quick check of the property run against it"}
 }
